@@ -188,6 +188,28 @@ def scenarios_c15(ctx, binpath, count):
     for i, blob in enumerate([b"", b"\xff\xfe\x00", b"[]", b"null", b"{}", b"{\"participants\": [], \"courses\": []}", b"\"text\"", b"123"]):
         fp = w("g_%02d.json" % i, blob, binary=True)
         sc.append(("simple:garbage%d" % i, ["--num-threads", "1", fp], None, {"file": fp}))
+    # (b') degenerate but well-formed documents: nothing to optimise, nothing to choose from, only instructors, only courses without places
+    P = lambda name, ch: {"name": name, "choices": [{"course": c, "penalty": k} for k, c in enumerate(ch)]}
+    C = lambda name, lo, hi, ins=(), fixed=False: {"name": name, "num_min": lo, "num_max": hi, "instructors": list(ins), "fixed_course": fixed}
+    degenerate = [
+        ("no-courses-one-choiceless", [P("a", [])], []),
+        ("no-courses-three-choiceless", [P("a", []), P("b", []), P("c", [])], []),
+        ("no-courses-no-participants", [], []),
+        ("courses-but-no-participants", [], [C("k", 0, 3)]),
+        ("only-choiceless", [P("a", []), P("b", [])], [C("k", 0, 3), C("l", 1, 2)]),
+        ("only-instructors-without-choices", [P("a", []), P("b", [])], [C("k", 0, 3, [0]), C("l", 0, 2, [1])]),
+        ("one-instructor-only-fixed-course", [P("a", [])], [C("k", 0, 0, [0], True)]),
+        ("all-courses-without-places", [P("a", [0]), P("b", [1, 0])], [C("k", 0, 0), C("l", 0, 0)]),
+        ("single-participant-single-course", [P("a", [0])], [C("k", 0, 1)]),
+        ("minimum-never-reached", [P("a", [0])], [C("k", 5, 9)]),
+        ("fixed-course-nobody-wants", [P("a", [1])], [C("k", 2, 3, (), True), C("l", 0, 3)]),
+        ("many-courses-one-participant", [P("a", [7])], [C("k%d" % i, 0, 2) for i in range(12)]),
+    ]
+    for name, ps, cs in degenerate:
+        fp = w("deg_%s.json" % name, json.dumps({"format": "X-coursedata-simple", "version": "1.0", "participants": ps, "courses": cs}))
+        for extra in ([], ["--num-threads", "4"], ["--print"], ["--rooms", "3,2"]):
+            sc.append(("simple:degenerate:%s%s" % (name, ("+" + extra[0].strip("-")) if extra else ""), (["--num-threads", "1"] if not extra or extra[0] != "--num-threads" else []) + extra + [fp],
+                       None, {"file": fp}))
     # (c) options
     fl = default_flags()
     for rooms in ["", "3,x", "-1", "1,,2", "2.5", "a", "1,-2"]:
@@ -332,7 +354,7 @@ def run_scenarios(ctx, binpath, scenarios, jobs=16):
                 a.append(outp)
             else:
                 outp = None
-        r = clirun.run_bin(binpath, a, timeout=120, fsize=info.get("fsize"))
+        r = clirun.run_bin(binpath, a, timeout=120, fsize=info.get("fsize"), closed_stdout=bool(info.get("closed_stdout")))
         fl = flags
         pr = None
         if fl is None:
@@ -361,7 +383,7 @@ def run_scenarios(ctx, binpath, scenarios, jobs=16):
                 mistyped = cde_mistyped_fields(json.load(open(info["file"], encoding="utf-8")))
             except Exception:
                 mistyped = []
-        return {"mistyped": mistyped, "label": label, "args": a, "flags": fl, "probe": pr, "exit": code, "stderr": r["stderr"][-500:], "outpath": outp,
+        return {"closed_stdout": bool(info.get("closed_stdout")), "mistyped": mistyped, "label": label, "args": a, "flags": fl, "probe": pr, "exit": code, "stderr": r["stderr"][-500:], "outpath": outp,
                 "file_ok": file_state(outp, "--cde" in a) if outp else False,
                 "file_exists": bool(outp and os.path.exists(outp)), "panicked": "panicked" in r["stderr"]}
 
@@ -466,4 +488,8 @@ def scenarios_c16(ctx, binpath):
                 sc.append(("c16:%s:%s" % (tag, fault), opts + [inp, outp], dict(fl, create_ok=create_ok, write_ok=write_ok),
                            {"outpath": outp, "append_out": False, "fault": fault, "cde": name != "simple",
                             "fsize": int(fault.split("-")[1]) if fault.startswith("PARTIAL") else None}))
+                if pr and fault in ("ENOENT", "EISDIR", "ENOSPC") and not name.endswith("-big") and name != "cde-large":
+                    # the same fault while the reader of stdout is gone (`cdecao --print ... | head`): the listing cannot be printed either
+                    sc.append(("c16:%s:%s+stdout-closed" % (tag, fault), opts + [inp, outp], dict(fl, create_ok=create_ok, write_ok=write_ok),
+                               {"outpath": outp, "append_out": False, "fault": fault, "cde": name != "simple", "closed_stdout": True}))
     return sc
